@@ -373,7 +373,7 @@ Definition pobs_eqb (x y : pobs) : bool :=
 (* ---- notions used in the statements about scripts ------------------------------------------- *)
 
 (* the command never uses global scope on the name [n]: no plain or
-   special-built-in assignment, no typeset -g, export, readonly, unset of [n] *)
+   special-built-in assignment, no typeset -g, export, readonly, unset, read of [n] *)
 Fixpoint cmd_safe (n : name) (c : cmd) : bool :=
   match c with
   | CAssign asgs => forallb (fun p => negb (str_eqb (fst p) n)) asgs
@@ -382,6 +382,7 @@ Fixpoint cmd_safe (n : name) (c : cmd) : bool :=
   | CCall _ body _ => forallb (cmd_safe n) body
   | CTypeset _ g _ _ m _ => negb (g && str_eqb m n)
   | CExport m _ | CReadonly m _ | CUnset m => negb (str_eqb m n)
+  | CRead _ m _ => negb (str_eqb m n)
   end.
 
 (* what the two observers show is the same (environments as sets) *)
@@ -391,3 +392,7 @@ Definition pobs_equiv (x y : pobs) : Prop :=
   | PEnv e, PEnv e' => (forall z, In z e <-> In z e') /\ NoDup e /\ NoDup e'
   | _, _ => False
   end.
+
+(* the topmost context is a volatile one (what Scope::Volatile requires of get_or_new) *)
+Definition top_is_volatile (cs : list ctx) : bool :=
+  match nth_error cs (length cs - 1) with Some CVolatile => true | _ => false end.
